@@ -366,6 +366,8 @@ class Program:
         hdr = [f for f in cands if f.file.endswith(".h")]
         if hdr:
             return hdr[0]
+        if len(cands) == 1:
+            return cands[0]      # a static function defined in exactly one unit
         return None
 
     def all_funcs(self):
